@@ -1,6 +1,5 @@
 import Geo.Props.C18
-open Geo
-#print axioms T18_common_point_is_meet
-#print axioms T18_meet_on_both
-#print axioms T18_parallel_meet_at_infinity
-#print axioms T18_collinear_gives_zero
+#print axioms Geo.T18_common_point_is_meet
+#print axioms Geo.T18_meet_on_both
+#print axioms Geo.T18_parallel_meet_at_infinity
+#print axioms Geo.T18_collinear_gives_zero
